@@ -227,8 +227,15 @@ def gen_trace(rng, m, k=None, noise=None, kind=None):
     k = k or rng.randint(1, 10)
     if noise is None:
         noise = rng.choice([0.0, 0.05, 0.2, 0.5])
-    kind = kind or rng.choice(["walk", "walk", "walk", "sparse", "outlier", "on_node", "repeat", "single", "dyadic"])
+    kind = kind or rng.choice(["walk", "walk", "walk", "sparse", "outlier", "on_node", "repeat", "single", "dyadic", "parked"])
     cur = rng.choice(labs)
+    if kind == "parked":
+        # a vehicle that does not move: all fixes scatter around one node, preferably one that lists itself as a neighbour
+        selfl = [l for l in labs if l in adj.get(l, [])]
+        if selfl and rng.random() < 0.7:
+            cur = rng.choice(selfl)
+        nz = rng.choice([0.0, 0.02, 0.1, 0.3])
+        return [[c[cur][0] + rng.gauss(0, nz), c[cur][1] + rng.gauss(0, nz)] for _ in range(max(1, k))]
     pts = []
     pos = c[cur]
     steps = k * (3 if kind == "sparse" else 1)
